@@ -292,7 +292,9 @@ def oracle_row(trials, k):
     row['n_fail_X'] = sum(sum(ee[:k]) for ee in inside)
     row['n_fail_Z'] = sum(sum(ee[k:]) for ee in inside)
     row['p_word_est'] = 1 - (1 - p) ** (1 / k)
-    row['p_word_se'] = (1 / k) * (1 - p) ** (1 / k - 1) * se      # p < 1 whenever k > 1 (trial sets)
+    # the stated propagation formula is undefined at p = 1 for k > 1 (0 to a negative power): not compared
+    # (cannot happen for the full trial sets, only for partial contents in the merge-history family)
+    row['p_word_se'] = None if (p == 1 and k > 1) else (1 / k) * (1 - p) ** (1 / k - 1) * se
     est, ses = [], []
     for i in range(k):
         pairs = [(ee[i], ee[k + i]) for ee, cs, ok in trials]
@@ -624,7 +626,7 @@ def _eval_merge(case):
                     for lb in labels:
                         for col in ALL_COLS:
                             got, want = table[lb][col], expected[lb][col]
-                            if not _close(got, want):
+                            if want is not None and not _close(got, want):
                                 emit(dict(key0, kind='value', column=col, point=lb),
                                      dict(where, point=lb, reported=got, hand_pooled=want))
                 if len(res['samples']) < 2 and not fresh:
@@ -763,7 +765,7 @@ def eval_case(case):
             for lb in labels:
                 for col in ALL_COLS:
                     got, want = table[lb][col], expected[lb][col]
-                    if _close(got, want):
+                    if want is None or _close(got, want):
                         continue
                     key = dict(base_key, kind='value', column=col, point=lb)
                     if col.endswith('_se'):
